@@ -235,6 +235,8 @@ def run(prog, ctx):
     # cache reach the matrix like fresh Gram entries, so the cache must hold lambda-free entries (rule shared with C17.D1)
     from .C17 import check_matrix_cache
     check_matrix_cache(prog, ctx, "C16.D2")
+    from .C17 import check_pair_arguments
+    ctx.floor("C16.D2.pairs", check_pair_arguments(prog, ctx, "C16.D2"), 3, "pair routines (scalar products, overlap key) in build_R_matrix_dimension_wise")
     # ------------------------------------------------------------------ D7
     from ..hats import check_hat_centre
     ctx.floor("C16.D7", check_hat_centre(prog, ctx, "C16.D7"), 3, "hat implementations analysed for the centre rule")
